@@ -49,8 +49,8 @@ func gen(t *rapid.T) Case {
 		n := rapid.IntRange(2, 8).Draw(t, "nops")
 		var ops []AppOp
 		for i := 0; i < n; i++ {
-			op := AppOp{K: rapid.SampledFrom([]string{"obtain", "obtain", "inc", "inc", "inc", "close", "close", "child"}).Draw(t, "k"), I: rapid.IntRange(0, c.NIdent-1).Draw(t, "i")}
-			if op.K == "inc" || op.K == "child" {
+			op := AppOp{K: rapid.SampledFrom([]string{"obtain", "obtain", "inc", "inc", "inc", "close", "close", "child", "same"}).Draw(t, "k"), I: rapid.IntRange(0, c.NIdent-1).Draw(t, "i")}
+			if op.K == "inc" || op.K == "child" || op.K == "same" {
 				op.D = int64(rapid.IntRange(1, 9).Draw(t, "d"))
 			}
 			if op.K == "obtain" && c.Sanitize {
@@ -232,6 +232,30 @@ func run(c Case) (pbt.Outcome, error) {
 						mu.Unlock()
 					}
 					h.closeReturned.CompareAndSwap(0, seq.Add(1))
+				case "same":
+					// a derivation that adds nothing - Tagged(nil) / Tagged({}) - names the scope itself while
+					// it is live; derived from a closed scope it is inert like every other derivation
+					mu.Lock()
+					h := slots[op.I]
+					mu.Unlock()
+					if h == nil {
+						continue
+					}
+					closedAtStart := h.closed.Load()
+					var d tally.Scope
+					if op.D%2 == 0 {
+						d = h.s.Tagged(nil)
+					} else {
+						d = h.s.Tagged(map[string]string{})
+					}
+					d.Counter("c").Inc(op.D)
+					if !closedAtStart {
+						// what came back is a registered scope of this identity - h.s itself, another live
+						// object of the identity (alias spellings may live in another shard) or a new one;
+						// the increment is delivered for sure only if Close had not been called on THAT
+						// object (nor on the one it was derived from) when Inc returned
+						account(id(op.I, false), op.D, !lookup(d).closed.Load() && !h.closed.Load())
+					}
 				case "child":
 					mu.Lock()
 					h := slots[op.I]
@@ -332,7 +356,7 @@ func run(c Case) (pbt.Outcome, error) {
 func TestC07(t *testing.T) {
 	pbt.Main(t, pbt.Prop[Case]{
 		ID: "C07", Name: "sched",
-		Rule: "cooperative-scheduler mode: rapid generates 1..3 identities (SubScope and Tagged; in a quarter of the cases a root with a sanitizer whose identities can each be requested through two raw tag spellings that sanitize identically - differing in a one-byte character or, half the time, in a two-byte rune so that the raw key is longer than the canonical one while the identities' values extend each other by one byte), shard count 1/2/4, plain/cached, 1..3 application threads each 2..8 ops from {obtain(identity) into a shared slot, Inc on the slot's scope, Close the slot's scope, derive a child of it and Inc there}, 1..2 modelled ticker threads x 1..3 passes, AND the schedule (<=200 choices incl. the yield points around the registry's lock hand-over, between 'report scope' and the closed-flag handling, and inside the re-acquire path). Then two sequential passes. Oracle per identity: L <= delivered <= U with L = increments that completed before Close was called on their scope object plus all increments on objects never closed, U = all increments; children derived from an already closed scope deliver nothing; the live scope obtained last is still registered; a request never returns a scope object whose Close had returned before the request started; Close returns nil; no panic; deadlock decided exactly by the scheduler. Non-trivial: a re-acquire happened and some registry window (lock hand-over, report/closed check, re-acquire path) was preempted. Distinct: FNV-64 of program+schedule JSON.",
+		Rule: "cooperative-scheduler mode: rapid generates 1..3 identities (SubScope and Tagged; in a quarter of the cases a root with a sanitizer whose identities can each be requested through two raw tag spellings that sanitize identically - differing in a one-byte character or, half the time, in a two-byte rune so that the raw key is longer than the canonical one while the identities' values extend each other by one byte), shard count 1/2/4, plain/cached, 1..3 application threads each 2..8 ops from {obtain(identity) into a shared slot, Inc on the slot's scope, Close the slot's scope, derive a child of it and Inc there, derive Tagged(nil)/Tagged({}) from it and Inc there}, 1..2 modelled ticker threads x 1..3 passes, AND the schedule (<=200 choices incl. the yield points around the registry's lock hand-over, between 'report scope' and the closed-flag handling, and inside the re-acquire path). Then two sequential passes. Oracle per identity: L <= delivered <= U with L = increments that completed before Close was called on their scope object plus all increments on objects never closed, U = all increments; children and empty-tag derivations obtained from an already closed scope deliver nothing; the live scope obtained last is still registered; a request never returns a scope object whose Close had returned before the request started; Close returns nil; no panic; deadlock decided exactly by the scheduler. Non-trivial: a re-acquire happened and some registry window (lock hand-over, report/closed check, re-acquire path) was preempted. Distinct: FNV-64 of program+schedule JSON.",
 		Gen:  gen, Run: run, Retries: 30,
 	})
 }
